@@ -27,6 +27,7 @@ class Loop:
     variant: str | None = None  # integer expression, >= 0 at the head whenever the guard holds, strictly decreasing
     ghosts: dict[str, Ghost] = field(default_factory=dict)
     index: str | None = None  # name under which the hidden index of a `for` loop is visible to the invariant
+    transition: dict[str, str] = field(default_factory=dict)  # proved at every latch over old.<var> (head state) and the current state; NOT assumed
     hints: list[str] = field(default_factory=list)  # ground lemma instances assumed at the loop head (each is itself proved as an obligation)
 
 
@@ -50,6 +51,10 @@ class Contract:
     ghost_params: dict[str, str] = field(default_factory=dict)
     notes: str = ""
     hints: dict[str, list[str]] = field(default_factory=dict)
+    defs: dict[str, str] = field(default_factory=dict)  # macro name -> lambda source, usable in every contract expression
+    reads: dict[str, list[str]] | None = None  # parameter -> the only fields of that object the function may read (reads frame)
+    call_site: dict[str, dict[str, str]] = field(default_factory=dict)  # callee short name -> clauses over callee_<param> and the caller's state
+    registry_requires: dict[str, str] = field(default_factory=dict)  # obligations at every invocation of a registry entry
 
 
 def contract(qualname: str, **kw) -> Contract:
